@@ -499,3 +499,111 @@ func (i *interpreter) jsonFloatRound(t types.Type, v value, changed *bool) value
 func reflectTag(tag, key string) string {
 	return reflect.StructTag(tag).Get(key)
 }
+
+// ---- gogo/golang protobuf Marshal/Unmarshal ----
+// A value without symbolic leaves is rendered structurally into concrete bytes (deterministic, injective on the
+// rendered structure; pointers are followed) and remembered, so that stores keyed or hashed by the bytes keep working
+// (real IAVL trees); Unmarshal looks the bytes up.  A value with symbolic leaves becomes an opaque token like the
+// amino codec's.  The wire format itself is not modelled.
+
+func renderConcrete(v value, sb *strings.Builder, depth int) bool {
+	if depth > 40 {
+		return false
+	}
+	switch v := v.(type) {
+	case nil:
+		sb.WriteString("nil")
+	case bool, int, int8, int16, int32, int64, uint, uint8, uint16, uint32, uint64, uintptr, float32, float64, string:
+		fmt.Fprintf(sb, "%T:%v", v, v)
+	case structure:
+		sb.WriteString("{")
+		for _, f := range v {
+			if !renderConcrete(f, sb, depth+1) {
+				return false
+			}
+			sb.WriteString(",")
+		}
+		sb.WriteString("}")
+	case array:
+		sb.WriteString("[")
+		for _, f := range v {
+			if !renderConcrete(f, sb, depth+1) {
+				return false
+			}
+			sb.WriteString(",")
+		}
+		sb.WriteString("]")
+	case []value:
+		if v == nil {
+			sb.WriteString("s-nil")
+			return true
+		}
+		sb.WriteString("s[")
+		for _, f := range v {
+			if !renderConcrete(f, sb, depth+1) {
+				return false
+			}
+			sb.WriteString(",")
+		}
+		sb.WriteString("]")
+	case *value:
+		if v == nil {
+			sb.WriteString("p-nil")
+			return true
+		}
+		sb.WriteString("&")
+		return renderConcrete(*v, sb, depth+1)
+	case iface:
+		if v.t == nil {
+			sb.WriteString("i-nil")
+			return true
+		}
+		sb.WriteString("i(" + v.t.String() + ")")
+		return renderConcrete(v.v, sb, depth+1)
+	default:
+		return false
+	}
+	return true
+}
+
+func init() {
+	marshal := func(fr *frame, a []value) value {
+		it := a[0].(iface)
+		var sb strings.Builder
+		sb.WriteString("proto|" + it.t.String() + "|")
+		if renderConcrete(it.v, &sb, 0) {
+			key := sb.String()
+			if fr.i.protoTab == nil {
+				fr.i.protoTab = map[string]iface{}
+			}
+			fr.i.protoTab[key] = iface{t: it.t, v: deepCopy(it.v)}
+			fr.i.m.Stubs["protobuf Marshal: structural rendering of a concrete message (wire format not modelled)"]++
+			return tuple{bytesVal([]byte(key)), iface{}}
+		}
+		return tuple{fr.i.boxMarshal("proto", a[0]), iface{}}
+	}
+	unmarshal := func(fr *frame, a []value) value {
+		if raw, ok := concBytes(a[0]); ok && len(raw) > 0 {
+			src, found := fr.i.protoTab[string(raw)]
+			if !found {
+				unsup("protobuf Unmarshal of bytes that no Marshal produced on this path")
+			}
+			pit := a[1].(iface)
+			dst, ok1 := pit.v.(*value)
+			sp, ok2 := src.v.(*value)
+			if !ok1 || !ok2 || dst == nil || sp == nil || !sameType(pit.t, src.t) {
+				return fr.i.mkError("proto: cannot unmarshal into a different message type")
+			}
+			*dst = deepCopy(*sp)
+			return iface{}
+		}
+		if msg := fr.i.boxUnmarshal("proto", a[0], a[1]); msg != "" {
+			return fr.i.mkError(msg)
+		}
+		return iface{}
+	}
+	for _, pkg := range []string{"github.com/gogo/protobuf/proto", "github.com/golang/protobuf/proto"} {
+		externals[pkg+".Marshal"] = marshal
+		externals[pkg+".Unmarshal"] = unmarshal
+	}
+}
